@@ -17,7 +17,7 @@ C05 -- links are aliases of the original entity and stay in their block. Decided
      writes of its labels
 """
 import ast
-from .common import Ctx, surface, api_key, describe_path, ENTITY_CLASSES
+from .common import private_part_of, Ctx, surface, api_key, describe_path, ENTITY_CLASSES
 from nixsa.px import explore, Config
 from nixsa.px_attr import PRESENT
 from nixsa.px_call import ABSENT
@@ -126,6 +126,9 @@ def run(M, rep, tier, only=None):
     link_values_table(M, rep, R7, nctx)
 
     # ------------------------------------------------------------------ R1a
+    # private helpers are inlined (the membership decision may sit in one), public members stay summarised
+    ictx1 = Ctx(M)
+    ictx1.cfg.compose = False
     for cn, name, tb in (("LinkContainer", "append", "methods"), ("SourceLinkContainer", "append", "methods"),
                          ("Feature", "data", "setters")):
         f = ctx.member(cn, name, tb)
@@ -135,7 +138,7 @@ def run(M, rep, tier, only=None):
             continue
         bad = None
         nlink = nref = 0
-        for p in ctx.paths(f, cn):
+        for p in ictx1.paths(f, cn):
             links = [e for e in p.events if e.kind == "layer" and e.op == "H5Group.create_link"]
             memb = None
             for a, v in p.decisions:
@@ -276,7 +279,8 @@ def run(M, rep, tier, only=None):
         for o in ops:
             if o[0] == "raw" and o[1].split(".")[-1] == "copy" and o[1].split(".")[0] in ("grp", "obj", "file"):
                 ncopy += 1
-                rep.check(R3, "h5py copy in " + q, q.split(":")[-1] == "H5Group.copy",
+                cpq = {f_.qual for f_ in M.funcs.values() if f_.qual.split(":")[-1] == "H5Group.copy"}
+                rep.check(R3, "h5py copy in " + q, q.split(":")[-1] == "H5Group.copy" or private_part_of(M, q, cpq),
                           "%s copies HDF5 objects: linking must never copy" % q)
     if not ncopy:
         rep.bad(R3, "h5py copy", "required mechanism not found: no HDF5 object copy at all (H5Group.copy)")
